@@ -247,6 +247,11 @@ func postDirect(seed uint64, tier string, args []string, w *bufio.Writer) {
 		fails++
 		fmt.Fprintf(w, "DIRECT-FAIL key=post.%s mode=counters\n", why)
 	}
+	// a posted handler whose wake-up shares a poll batch with an I/O callback that panics (recovered by the application)
+	if ok, why := postSurvivesPanickingCallback(); !ok {
+		fails++
+		fmt.Fprintf(w, "DIRECT-FAIL key=post.%s mode=panicking-callback\n", why)
+	}
 	// goroutines that keep posting while the loop goroutine closes the IO context
 	if ok, why := postWhileClosingIO(40); !ok {
 		fails++
@@ -705,6 +710,70 @@ func postWhileArming(posters int, d time.Duration) (bool, string, int) {
 // postCloseWithQueued: (1) the loop goroutine is inside a posted handler, another handler is queued, a third goroutine closes
 // the IO context: the queued handler must not run on that goroutine; (2) a posted handler posts another one and closes the
 // IO context with two earlier posts still waiting in its batch: the later post must not overtake them.
+// postSurvivesPanickingCallback: a descriptor becomes ready, then a handler is posted, then the loop is polled; the I/O callback —
+// dispatched first — panics, the application recovers around the poll call and polls again: the posted handler still runs, once
+// (the wake-up it sent is not lost with the aborted batch).
+func postSurvivesPanickingCallback() (bool, string) {
+	result := make(chan string, 1)
+	go func() {
+		runtime.LockOSThread()
+		defer runtime.UnlockOSThread()
+		ioc, err := sonic.NewIO()
+		if err != nil {
+			result <- "newio"
+			return
+		}
+		defer ioc.Close()
+		for round := 0; round < 20; round++ {
+			ln, err := net.Listen("tcp", "127.0.0.1:0")
+			if err != nil {
+				result <- ""
+				return
+			}
+			conn, err := sonic.Dial(ioc, "tcp", ln.Addr().String())
+			if err != nil {
+				ln.Close()
+				result <- ""
+				return
+			}
+			peer, err := ln.Accept()
+			ln.Close()
+			if err != nil {
+				conn.Close()
+				result <- ""
+				return
+			}
+			buf := make([]byte, 8)
+			conn.AsyncRead(buf, func(error, int) { panic("callback of the application panics") })
+			_, _ = peer.Write([]byte("x"))
+			time.Sleep(2 * time.Millisecond) // readable before the waker is
+			ran := 0
+			_ = ioc.Post(func() { ran++ })
+			func() {
+				defer func() { _ = recover() }()
+				_, _ = ioc.PollOne()
+			}()
+			for i := 0; i < 50 && ran == 0; i++ {
+				func() {
+					defer func() { _ = recover() }()
+					_ = ioc.RunOneFor(2 * time.Millisecond)
+				}()
+			}
+			conn.Close()
+			peer.Close()
+			if ran != 1 {
+				result <- fmt.Sprintf("posted-handler-lost-after-panicking-callback ran=%d round=%d", ran, round)
+				return
+			}
+		}
+		result <- ""
+	}()
+	if why := <-result; why != "" {
+		return false, why
+	}
+	return true, ""
+}
+
 // postWhileClosingIO: goroutines keep posting while the loop goroutine closes the IO context. Whatever those Post calls return,
 // none of them panics or blocks, and (race-detector build) nothing Close does conflicts with what Post reads.
 func postWhileClosingIO(rounds int) (bool, string) {
